@@ -16,6 +16,7 @@ from __future__ import annotations
 
 import ast
 import collections
+import re
 from typing import Any
 
 from .. import ilfacts, isa, mdfacts
@@ -72,6 +73,9 @@ def run(ctx: Ctx) -> None:
     frame(ctx, rows, ok_cases + [c for c in pre if c.status == "ok" and not c.lift_exc and not c.render_exc])
     loops(ctx, py, rows, ok_cases)
     intrinsics(ctx, py, rs)
+    access_widths(ctx, rows, docs, ok_cases)
+    flag_pack(ctx, rows, ok_cases)
+    decimal_adjust(ctx, rows, ok_cases)
 
 
 # ---------------------------------------------------------------------------
@@ -378,3 +382,211 @@ def intrinsics(ctx: Ctx, py: PyProgram, rs: RustProgram) -> None:
                 ctx.violation("C04.6/intrinsic-effects", key_of(rel, pyfn, "halted"), f"{pyfn}: Python halted={st.halted}, Rust power calls {rs_power}", rel)
         ctx.sample({"intrinsic": pyfn, "python_writes": {hex(a - base): [show_bit(b) for b in v.bits[:8]] for a, v in pyw.items()}})
     ctx.instance("C04.6/intrinsic-effects", "HALT/OFF/RESET: bit provenance of every internal register byte written, Python vs Rust", n, 11)
+
+
+# ---------------------------------------------------------------------------
+# documented access ranges `(m..m+k)` / `[x..x+k]` vs the widths the IL moves and compares
+
+_RANGE = re.compile(r"\.\.\s*(?:[^\s\]\)]*?)\+\s*(\d)")
+
+
+def _doc_width(fn_text: str) -> int | None:
+    ks = {int(k) for k in _RANGE.findall(fn_text)}
+    if len(ks) != 1:
+        return None
+    return ks.pop() + 1
+
+
+def _data_accesses(il: list) -> list[tuple[str, int, Any]]:
+    """(load|store, width, term) outside address computations."""
+    out: list[tuple[str, int, Any]] = []
+
+    def rec(x: Any, in_addr: bool) -> None:
+        if isinstance(x, Term):
+            if x.ctor in ("load", "store") and not in_addr:
+                out.append((x.ctor, x.args[0], x))
+            for i, a in enumerate(x.args):
+                rec(a, in_addr or (x.ctor in ("load", "store") and i == 1))
+        elif isinstance(x, (list, tuple)):
+            for a in x:
+                rec(a, in_addr)
+    rec(il, False)
+    return out
+
+
+def _eff_bits(t: Any, temps: dict) -> int | None:
+    """Number of low bits that can be non-zero in an IL value (loads/registers count as full width)."""
+    from ..bits import BitVec
+    if isinstance(t, Term):
+        c = t.ctor
+        if c in ("const", "const_pointer"):
+            v = ilfacts.value_of(t)
+            if isinstance(v, int):
+                return v.bit_length()
+            return None
+        if c == "load":
+            return 8 * t.args[0]
+        if c == "reg":
+            key = repr(t.args[1])
+            if key in temps:
+                return temps[key]
+            return 8 * t.args[0]
+        if c == "and_expr":
+            a, b = _eff_bits(t.args[1], temps), _eff_bits(t.args[2], temps)
+            return None if a is None or b is None else min(a, b)
+        if c in ("or_expr", "xor_expr", "add", "sub"):
+            a, b = _eff_bits(t.args[1], temps), _eff_bits(t.args[2], temps)
+            return None if a is None or b is None else max(a, b)
+        if c in ("zero_extend", "low_part"):
+            a = _eff_bits(t.args[1], temps)
+            return None if a is None else min(a, 8 * t.args[0])
+    return None
+
+
+def access_widths(ctx: Ctx, rows: dict, docs: list, cases: list) -> None:
+    by_op: dict[int, list] = collections.defaultdict(list)
+    for c in cases:
+        by_op[c.opcode].append(c)
+    n = 0
+    groups: dict[tuple, list] = collections.defaultdict(list)
+    for d in docs:
+        w = _doc_width(d.function)
+        if w is None:
+            continue
+        for op in sorted(d.opcodes):
+            r = rows[op]
+            if r.cls in ("MVL", "MVLD", "EXL"):
+                continue      # counted block transfers move one byte per iteration
+            for c in by_op.get(op, []):
+                n += 1
+                acc = _data_accesses(c.il_terms)
+                widths = sorted({wd for _k, wd, _t in acc})
+                if widths and widths != [w]:
+                    bad = [f"{k}({wd})" for k, wd, _t in acc if wd != w]
+                    groups[("C04.7/access-width", op, d.mnemonic, f"README `{d.function.strip()}` moves {w}-byte operands but the IL has {', '.join(sorted(set(bad)))}")].append(c)
+                # flag-setting arithmetic: every memory operand takes part with all documented bits
+                temps: dict[str, int] = {}
+                for st in c.il_terms:
+                    if isinstance(st, Term) and st.ctor == "set_reg" and "TEMP" in repr(st.args[1]):
+                        b = _eff_bits(st.args[2], temps)
+                        if b is not None:
+                            temps[repr(st.args[1])] = b
+                for st in c.il_terms:
+                    for t in ilfacts.walk(st):
+                        if t.ctor in ("sub", "add") and len(t.args) >= 4 and t.args[3] not in (None, "", 0):
+                            for operand in t.args[1:3]:
+                                if any(x.ctor == "load" for x in ilfacts.walk(operand)):
+                                    b = _eff_bits(operand, temps)
+                                    if b is not None and b < 8 * w:
+                                        groups[("C04.7/operand-bits", op, d.mnemonic, f"README `{d.function.strip()}` compares {8 * w} bits but a memory operand enters the flag-setting {t.ctor} with only {b} significant bits")].append(c)
+    for (rule, op, mn, what), cs in sorted(groups.items(), key=lambda kv: (kv[0][0], kv[0][1])):
+        r = rows[op]
+        ctx.violation(rule, key_of(isa.INSTR_PY, f"opcode 0x{op:02X} {r.cls}", f"{mn.strip()}: {what.split(' but ')[0]}"),
+                      f"opcode 0x{op:02X} `{mn.strip()}`: {what} ({len(cs)} cases)", f"{isa.OPTABLE}:{r.ln}", il=cs[0].il[:6])
+    ctx.instance("C04.7/access-width", "encodings of README rows with a documented operand range (m..m+k): IL data access widths and compared bits", n, 150)
+
+
+def flag_pack(ctx: Ctx, rows: dict, cases: list) -> None:
+    """F is the byte C | Z<<1: instructions that stack F pack exactly that; instructions that unstack it restore C from bit 0 and Z from bit 1 only."""
+    from ..bits import BitVec
+
+    def ev(t: Any, env: dict) -> Any:
+        if isinstance(t, Term):
+            c = t.ctor
+            if c == "const":
+                return BitVec.const(ilfacts.value_of(t))
+            if c == "flag":
+                return env.get("flag:" + repr(t.args[0]))
+            if c == "reg":
+                return env.get("reg:" + repr(t.args[1]))
+            if c in ("and_expr", "or_expr", "xor_expr"):
+                a, b = ev(t.args[1], env), ev(t.args[2], env)
+                if a is None or b is None:
+                    return None
+                return {"and_expr": a & b, "or_expr": a | b, "xor_expr": a ^ b}[c]
+            if c in ("shift_left", "logical_shift_right"):
+                a, b = ev(t.args[1], env), ev(t.args[2], env)
+                if a is None or b is None or not b.is_const():
+                    return None
+                return (a << b.value()) if c == "shift_left" else (a >> b.value())
+            if c in ("pop", "load"):
+                return env.get("src")
+        return None
+    n_pack = n_unpack = 0
+    cbit, zbit = BitVec.sym("C", 1), BitVec.sym("Z", 1)
+    want_pack = (cbit | (zbit << 1)).bits[:8]
+    for c in cases:
+        r = rows[c.opcode]
+        il = c.il_terms
+        # pack: a pushed/stored value built from both flags
+        for st in il:
+            if isinstance(st, Term) and st.ctor in ("push", "store"):
+                val = st.args[1] if st.ctor == "push" else st.args[2]
+                flags = {repr(t.args[0]) for t in ilfacts.walk(val) if t.ctor == "flag"}
+                if {"'C'", "'Z'"} <= flags:
+                    n_pack += 1
+                    got = ev(val, {"flag:'C'": cbit, "flag:'Z'": zbit})
+                    if got is None or list(got.bits[:8]) != list(want_pack):
+                        ctx.violation("C04.8/flag-pack", key_of(isa.OPCODES_PY, "RegF.lift", f"{r.cls} stacks F"), f"opcode 0x{c.opcode:02X} ({c.name}) stacks F as {c.il[il.index(st)][:90]}, not as C | Z<<1", f"{isa.OPTABLE}:{r.ln}")
+        # unpack: set_flag from a popped/loaded byte held in a temp (POPU F / POPS F / RETI)
+        unstacks_f = r.cls == "RETI" or (r.cls.startswith("POP") and r.ops and r.ops[0].ctor == "RegF")
+        env: dict = {}
+        for st in (il if unstacks_f else []):
+            if not isinstance(st, Term):
+                continue
+            if st.ctor == "set_reg" and isinstance(st.args[2], Term) and st.args[2].ctor in ("pop", "load") and st.args[0] == 1:
+                env["reg:" + repr(st.args[1])] = BitVec.sym("f", 8)
+            if st.ctor == "set_flag" and env:
+                uses = [t for t in ilfacts.walk(st.args[1]) if t.ctor == "reg" and "reg:" + repr(t.args[1]) in env]
+                if not uses:
+                    continue
+                n_unpack += 1
+                got = ev(st.args[1], env)
+                flag = repr(st.args[0]).strip("'")
+                bit = {"C": 0, "Z": 1}.get(flag)
+                if got is None or bit is None:
+                    raise AnalysisError(f"opcode 0x{c.opcode:02X}: flag restore expression outside the evaluable fragment: {c.il}")
+                live = {b for b in got.bits[:8] if b != 0}
+                if live != {("f", bit, False)}:
+                    from ..bits import show_bit
+                    ctx.violation("C04.8/flag-pack", key_of(isa.OPCODES_PY, "RegF.lift_assign", f"{flag} restored from other bits"),
+                                  f"opcode 0x{c.opcode:02X} ({c.name}) restores {flag} from [{' '.join(show_bit(b) for b in got.bits[:8])}] of the stacked byte; only bit {bit} may decide it "
+                                  f"(a stacked F with other bits set, e.g. 0x04, changes {flag})", f"{isa.OPTABLE}:{r.ln}")
+    ctx.instance("C04.8/flag-pack", "instructions stacking F (pack == C | Z<<1) and unstacking F (C from bit 0, Z from bit 1 only)", n_pack + n_unpack, 9)
+
+
+def decimal_adjust(ctx: Ctx, rows: dict, cases: list) -> None:
+    """Decimal correction: `if X > 9 then T := X + 6 else T := X` must test, adjust and pass through the *same* digit sum X."""
+    n = 0
+    for c in cases:
+        il = c.il_terms
+        r = rows[c.opcode]
+        for i, st in enumerate(il):
+            if not (isinstance(st, Term) and st.ctor == "if_expr" and isinstance(st.args[0], Term) and st.args[0].ctor == "compare_unsigned_greater_than"):
+                continue
+            cond = st.args[0]
+            if ilfacts.value_of(cond.args[2]) != 9:
+                continue
+            tested = repr(cond.args[1])
+            lt, lf = repr(st.args[1]), repr(st.args[2])
+
+            def first_set(label: str) -> Any:
+                for j, x in enumerate(il):
+                    if isinstance(x, Term) and x.ctor == "LABEL" and repr(x.args[0]) == label:
+                        for y in il[j + 1:j + 3]:
+                            if isinstance(y, Term) and y.ctor == "set_reg":
+                                return y
+                return None
+            a, b = first_set(lt), first_set(lf)
+            if a is None or b is None or repr(a.args[1]) != repr(b.args[1]):
+                continue
+            n += 1
+            adj = a.args[2]
+            if not (isinstance(adj, Term) and adj.ctor == "add" and ilfacts.value_of(adj.args[2]) == 6):
+                continue
+            adjusted, passed = repr(adj.args[1]), repr(b.args[2])
+            if not (tested == adjusted == passed):
+                ctx.violation("C04.9/decimal-adjust", key_of(isa.INSTR_PY, f"opcode 0x{c.opcode:02X} {r.cls}", "digit sum tested != digit sum adjusted"),
+                              f"opcode 0x{c.opcode:02X} ({c.name}): the decimal correction tests `{tested[:90]}` > 9 but adds 6 to `{adjusted[:90]}`: a digit sum of exactly 9 plus an incoming carry is left uncorrected (or a sum below 10 is corrected)",
+                              f"{isa.OPTABLE}:{r.ln}")
+    ctx.instance("C04.9/decimal-adjust", "decimal-correction diamonds (test > 9 / +6 / pass through) using one and the same digit sum", n, 4)
